@@ -470,11 +470,17 @@ def _reseedable(o):
     return callable(getattr(o, "set_rng", None)) or callable(getattr(o, "worker_init_fn", None))
 
 
-def blame_stale(entry, stale_ids, hook_kwargs):
+def blame_stale(ds, path, stale_paths, hook_kwargs):
     """diagnostics (names the mechanism, never decides): which class failed to pass the worker's generator on?
     Walks the holders of a stale generator from the outermost one below which *every* generator is stale and asks each,
     through its public API (worker_init_fn for datasets, set_rng otherwise), to take a generator: the blamed class is the
     innermost holder that does not deliver it to this generator's owner although the next holder inside would take it."""
+    ds = copy.deepcopy(ds)     # the probing below replaces generators: work on a throw-away copy
+    entries = census(ds)
+    entry = next((e for e in entries if e.path == path), None)
+    if entry is None:
+        return "unattributed"
+    stale_ids = {id(e.gen) for e in entries if e.path in stale_paths} | {id(entry.gen)}
     chain = [o for o in entry.chain if _reseedable(o)]
     if not chain:
         return "unattributed"
